@@ -22,15 +22,23 @@ Definition obs_proj_eqb (a b : obs) : bool :=
            (ob_entries a) (ob_entries b) && Bool.eqb (ob_eof a) (ob_eof b).
 Definition mismatch (c : case) : list (N * N) := generic_mismatch obs_proj_eqb true true c.
 
+Definition exists_ (d : list dump_entry) (p : path) : bool := match d_get d p with Some _ => true | None => false end.
+(* the object at a handle's path is still of the kind it had when the handle was issued (otherwise the handle
+   is stale in the NFS sense and the tree model has no opinion on the reply) *)
+Definition same_kind (x : octx) (h : N) (p : path) : bool :=
+  match find (fun e => fst e =? h) (oc_gkind x), d_get (oc_prev x) p with
+  | Some (_, k), Some e => kind_eqb k (d_kind e)
+  | _, _ => false
+  end.
 Definition is_dir (d : list dump_entry) (p : path) : bool :=
   match d_get d p with Some e => kind_eqb (d_kind e) KDir | None => false end.
-Definition exists_ (d : list dump_entry) (p : path) : bool := match d_get d p with Some _ => true | None => false end.
 Definition has_kids (d : list dump_entry) (p : path) : bool := existsb (fun e : dump_entry => is_child p (fst e)) d.
 Definition good (n : name) : bool := (validate_name n =? st_ok) && negb (has_dotdot_sub n).
 
 (* expected success (Some true) / failure (Some false) / no opinion (None: handle unknown, odd names ...) *)
 Definition expect (x : octx) : option bool :=
-  let d := oc_prev x in let g := oc_ghost x in
+  let d := oc_prev x in
+  let g := filter (fun e : N * path => same_kind x (fst e) (snd e) || negb (exists_ (oc_prev x) (snd e))) (oc_ghost x) in
   match hs_req (i_step (oc_step x)) with
   | RLookup h n =>
       match g_get g h with Some p => if good n && is_dir d p then Some (exists_ d (p ++ [n])) else None | None => None end
